@@ -7,40 +7,513 @@ namespace Xcp
 /-- all jobs of an event list lie inside a file of length `len` -/
 def JobsIn (evs : List Ev) (len : Nat) : Prop := ∀ j ∈ jobsOf evs, j.1 + j.2 ≤ len
 
+/-! ## Coverage and event-list helpers -/
+
+@[simp] theorem covered_nil (i : Nat) : covered [] i ↔ False := by simp [covered]
+@[simp] theorem covered_cons (j : Nat × Nat) (l : List (Nat × Nat)) (i : Nat) :
+    covered (j :: l) i ↔ (j.1 ≤ i ∧ i < j.1 + j.2) ∨ covered l i := by simp [covered]
+@[simp] theorem covered_append (l1 l2 : List (Nat × Nat)) (i : Nat) :
+    covered (l1 ++ l2) i ↔ covered l1 i ∨ covered l2 i := by
+  simp [covered, or_and_right, exists_or]
+
+theorem jobsOf_append (l1 l2 : List Ev) : jobsOf (l1 ++ l2) = jobsOf l1 ++ jobsOf l2 := by
+  fun_induction jobsOf l1 <;> simp_all [jobsOf]
+
+theorem copiedOf_append (l1 l2 : List Ev) : copiedOf (l1 ++ l2) = copiedOf l1 ++ copiedOf l2 := by
+  fun_induction copiedOf l1 <;> simp_all [copiedOf]
+
+@[simp] theorem Run.pre_evs (es : List Ev) (r : Run) : (r.pre es).evs = es ++ r.evs := rfl
+@[simp] theorem Run.pre_stop (es : List Ev) (r : Run) : (r.pre es).stop = r.stop := rfl
+@[simp] theorem Run.pre_next (es : List Ev) (r : Run) : (r.pre es).next = r.next := rfl
+@[simp] theorem Run.cons_evs (e : Ev) (r : Run) : (r.cons e).evs = e :: r.evs := rfl
+@[simp] theorem Run.cons_stop (e : Ev) (r : Run) : (r.cons e).stop = r.stop := rfl
+@[simp] theorem Run.cons_next (e : Ev) (r : Run) : (r.cons e).next = r.next := rfl
+
+/-! ## The user-space loops -/
+
+/-- what a user-space loop guarantees when it reports `ok`: it moved all `nb` bytes, inside the file,
+covering exactly `[lo, hi)` -/
+def OkSpec (len : Nat) (R : Run) (nb lo hi : Nat) : Prop :=
+  ∀ n, R.stop = .ok n → n = nb ∧ JobsIn R.evs len ∧ ∀ i, covered (jobsOf R.evs) i ↔ lo ≤ i ∧ i < hi
+
+theorem OkSpec_fail (len : Nat) (evs : List Ev) (e : CopyErr) (a nb lo hi : Nat) :
+    OkSpec len ⟨evs, .fail e, a⟩ nb lo hi := by
+  intro n h; simp at h
+
+theorem OkSpec_done (len : Nat) (a w nb lo : Nat) (h : ¬ w < nb) (hw : w ≤ nb) :
+    OkSpec len ⟨[], .ok w, a⟩ nb (lo + w) (lo + nb) := by
+  intro n hn
+  simp at hn
+  subst hn
+  have : w = nb := by omega
+  subst this
+  simp [JobsIn, jobsOf]
+
+/-- prepend events whose only job is `(lo, m)` -/
+theorem OkSpec_pre (len : Nat) (R : Run) (es : List Ev) (nb lo m hi : Nat)
+    (hj : jobsOf es = [(lo, m)]) (h1 : lo + m ≤ len) (h2 : lo + m ≤ hi)
+    (h : OkSpec len R nb (lo + m) hi) : OkSpec len (R.pre es) nb lo hi := by
+  intro n hn
+  obtain ⟨e1, e2, e3⟩ := h n hn
+  refine ⟨e1, ?_, ?_⟩
+  · intro j hj'
+    simp [jobsOf_append, hj] at hj'
+    rcases hj' with rfl | hj'
+    · exact h1
+    · exact e2 j hj'
+  · intro i
+    simp [jobsOf_append, hj, e3]; omega
+
+/-- prepend events without jobs -/
+theorem OkSpec_pre0 (len : Nat) (R : Run) (es : List Ev) (nb lo hi : Nat)
+    (hj : jobsOf es = [])
+    (h : OkSpec len R nb lo hi) : OkSpec len (R.pre es) nb lo hi := by
+  intro n hn
+  obtain ⟨e1, e2, e3⟩ := h n hn
+  refine ⟨e1, ?_, ?_⟩
+  · intro j hj'
+    simp [jobsOf_append, hj] at hj'
+    exact e2 j hj'
+  · intro i
+    simp [jobsOf_append, hj, e3]
+
+theorem rangeUspace_spec (k : Kern) (len : Nat) (hs : KernSafe k len) :
+    ∀ (fuel a off nbytes w : Nat), w ≤ nbytes →
+      OkSpec len (rangeUspace k fuel a off nbytes w) nbytes (off + w) (off + nbytes) := by
+  intro fuel
+  induction fuel with
+  | zero =>
+    intro a off nbytes w hw
+    simp only [rangeUspace]
+    split
+    · intro n h; simp at h
+    · exact OkSpec_done _ _ _ _ _ ‹_› hw
+  | succ f ih =>
+    intro a off nbytes w hw
+    unfold rangeUspace
+    simp only []
+    split
+    · split
+      · apply OkSpec_fail
+      · rename_i rlen h0 hra
+        obtain ⟨b1, b2⟩ := hs _ _ _ _ _ hra
+        simp at b2
+        have hr : rlen ≠ 0 := h0
+        split
+        · split
+          · apply OkSpec_fail
+          · have := ih (a+2) off nbytes (w + rlen) (by omega)
+            apply OkSpec_pre len _ _ nbytes (off + w) rlen (off + nbytes)
+            · simp [jobsOf]
+            · omega
+            · omega
+            · rw [Nat.add_assoc]; exact this
+        · apply OkSpec_fail
+      · apply OkSpec_fail
+    · exact OkSpec_done _ _ _ _ _ ‹_› hw
+
 theorem rangeUspace_ok (k : Kern) (len : Nat) (hs : KernSafe k len) :
     ∀ (fuel a off nbytes w n : Nat), w ≤ nbytes →
       (rangeUspace k fuel a off nbytes w).stop = .ok n →
       n = nbytes ∧ JobsIn (rangeUspace k fuel a off nbytes w).evs len ∧
-      ∀ i, covered (jobsOf (rangeUspace k fuel a off nbytes w).evs) i ↔ off + w ≤ i ∧ i < off + nbytes := by
-  sorry
+      ∀ i, covered (jobsOf (rangeUspace k fuel a off nbytes w).evs) i ↔ off + w ≤ i ∧ i < off + nbytes :=
+  fun fuel a off nbytes w n hw h => rangeUspace_spec k len hs fuel a off nbytes w hw n h
+theorem bytesUspace_spec (k : Kern) (len : Nat) (hs : KernSafe k len) :
+    ∀ (fuel a pos nbytes w : Nat), w ≤ nbytes →
+      OkSpec len (bytesUspace k fuel a pos nbytes w) nbytes (pos + w) (pos + nbytes) := by
+  intro fuel
+  induction fuel with
+  | zero =>
+    intro a pos nbytes w hw
+    simp only [bytesUspace]
+    split
+    · intro n h; simp at h
+    · exact OkSpec_done _ _ _ _ _ ‹_› hw
+  | succ f ih =>
+    intro a pos nbytes w hw
+    unfold bytesUspace
+    simp only []
+    split
+    · split
+      · apply OkSpec_fail
+      · rename_i rlen h0 hra
+        obtain ⟨b1, b2⟩ := hs _ _ _ _ _ hra
+        simp at b2
+        have hr : rlen ≠ 0 := h0
+        split
+        · rename_i hwa
+          have := ih (a+2) pos nbytes (w + rlen) (by omega)
+          apply OkSpec_pre len _ _ nbytes (pos + w) rlen (pos + nbytes)
+          · simp [jobsOf, hwa]
+          · omega
+          · omega
+          · rw [Nat.add_assoc]; exact this
+        · apply OkSpec_fail
+      · have := ih (a+1) pos nbytes w hw
+        exact OkSpec_pre0 len _ [_] nbytes _ _ (by simp [jobsOf]) this
+      · apply OkSpec_fail
+    · exact OkSpec_done _ _ _ _ _ ‹_› hw
 
 theorem bytesUspace_ok (k : Kern) (len : Nat) (hs : KernSafe k len) :
     ∀ (fuel a pos nbytes w n : Nat), w ≤ nbytes →
       (bytesUspace k fuel a pos nbytes w).stop = .ok n →
       n = nbytes ∧ JobsIn (bytesUspace k fuel a pos nbytes w).evs len ∧
-      ∀ i, covered (jobsOf (bytesUspace k fuel a pos nbytes w).evs) i ↔ pos + w ≤ i ∧ i < pos + nbytes := by
-  sorry
+      ∀ i, covered (jobsOf (bytesUspace k fuel a pos nbytes w).evs) i ↔ pos + w ≤ i ∧ i < pos + nbytes :=
+  fun fuel a pos nbytes w n hw h => bytesUspace_spec k len hs fuel a pos nbytes w hw n h
 
-/-- `copy_file_offset` with the retry loop: on success the moved bytes are exactly the block clipped at EOF -/
+/-! ## `copy_file_offset` -/
+
+theorem classifyCfr_done {x : IoAns} {n : Nat} (h : classifyCfr x = .done n) : x = .moved n := by
+  unfold classifyCfr at h; split at h <;> simp_all
+
+theorem classifyCfr_err {x : IoAns} (h : ∀ n, classifyCfr x ≠ .done n) : ∃ e, x = .err e := by
+  cases x with
+  | moved n => exact absurd rfl (h n)
+  | err e => exact ⟨e, rfl⟩
+
+theorem covered_lt_of_JobsIn {evs : List Ev} {len i : Nat} (h : JobsIn evs len)
+    (hc : covered (jobsOf evs) i) : i < len := by
+  obtain ⟨j, hj, h1, h2⟩ := hc
+  have := h j hj
+  omega
+
+/-- success of `copy_file_offset` (loop variable `c`), started at or before end of file -/
+def CfoSpec (len off bytes c : Nat) (R : Run) : Prop :=
+  ∀ n, R.stop = .ok n → c ≤ n ∧ n ≤ bytes ∧ off + n = min (off + bytes) len ∧ JobsIn R.evs len ∧
+    ∀ i, covered (jobsOf R.evs) i ↔ off + c ≤ i ∧ i < min (off + bytes) len
+
+theorem CfoSpec_done (len off bytes c a : Nat) (h : ¬ c < bytes) (hc : c ≤ bytes) (hl : off + c ≤ len) :
+    CfoSpec len off bytes c ⟨[], .ok c, a⟩ := by
+  intro n hn
+  simp at hn
+  subst hn
+  have : c = bytes := by omega
+  subst this
+  refine ⟨by omega, by omega, by omega, by simp [JobsIn, jobsOf], ?_⟩
+  intro i; simp [jobsOf]; omega
+
+theorem copyFileOffset_spec (k : Kern) (len : Nat) (hs : KernSafe k len) (hl : KernLive k len) :
+    ∀ (fuel a off bytes c : Nat), c ≤ bytes → off + c ≤ len →
+      CfoSpec len off bytes c (copyFileOffset k fuel a off bytes c) := by
+  intro fuel
+  induction fuel with
+  | zero =>
+    intro a off bytes c hc hlen
+    simp only [copyFileOffset]
+    split
+    · intro n h; simp at h
+    · exact CfoSpec_done _ _ _ _ _ ‹_› hc hlen
+  | succ f ih =>
+    intro a off bytes c hc hlen
+    unfold copyFileOffset
+    simp only []
+    split
+    · rename_i hlt
+      split
+      · rename_i hcl
+        have hca := classifyCfr_done hcl
+        have hlive := hl a .cfr (off + c) (bytes - c) (by simp) (by omega)
+        have : len ≤ off + c := by
+          apply Nat.le_of_not_lt; intro h; exact hlive h hca
+        intro n hn
+        simp at hn
+        subst hn
+        refine ⟨by omega, by omega, by omega, ?_, ?_⟩
+        · simp [JobsIn, jobsOf, hca]; omega
+        · intro i; simp [jobsOf, hca]; omega
+      · rename_i n h0 hcl
+        have hca := classifyCfr_done hcl
+        obtain ⟨b1, b2⟩ := hs _ _ _ _ _ hca
+        simp at b2
+        have hn0 : n ≠ 0 := h0
+        have := ih (a+1) off bytes (c + n) (by omega) (by omega)
+        intro m hm
+        obtain ⟨e1, e2, e3, e4, e5⟩ := this m hm
+        refine ⟨by omega, e2, e3, ?_, ?_⟩
+        · intro j hj
+          simp [jobsOf, hca] at hj
+          rcases hj with rfl | hj
+          · simp; omega
+          · exact e4 j hj
+        · intro i
+          simp [jobsOf, hca, e5]; omega
+      · intro n h; simp at h
+      · rename_i hcl
+        obtain ⟨e, hca⟩ := classifyCfr_err (x := k a .cfr (off + c) (bytes - c)) (by simp [hcl])
+        have hr := rangeUspace_spec k len hs (bytes - c + 1) (a+1) (off + c) (bytes - c) 0 (by omega)
+        split
+        · rename_i rest hrest
+          obtain ⟨e1, e2, e3⟩ := hr rest hrest
+          have hcov : off + bytes ≤ len := by
+            have := covered_lt_of_JobsIn e2 ((e3 (off + bytes - 1)).mpr (by omega))
+            omega
+          intro n hn
+          simp at hn
+          subst hn
+          refine ⟨by omega, by omega, by omega, ?_, ?_⟩
+          · intro j hj
+            simp [jobsOf, hca] at hj
+            exact e2 j hj
+          · intro i
+            simp [jobsOf, hca, e3]; omega
+        · rename_i hnot
+          intro n hn
+          simp at hn
+          exact absurd hn (hnot n)
+    · exact CfoSpec_done _ _ _ _ _ ‹_› hc hlen
+
+/- The statement originally given for `copyFileOffset_ok` had no hypothesis `off + c ≤ len`, and is FALSE
+without it: a block that starts beyond the end of the file gets the answer `moved 0` (legal: `KernSafe` and
+`KernLive` hold), the loop returns `ok c` and its event list holds the zero-length job `(off + c, 0)`, which
+does not satisfy `JobsIn` (`off + c + 0 ≤ len` fails).  Concretely: `len = 0`, `off = 5`, `bytes = 1`,
+`c = 0`, `fuel = 1`, kernel answering `moved 0` to everything — checked below.  The repaired statement adds
+`off + c ≤ len` (the block starts inside the file or at its end), the same hypothesis `copyFileOffset_count`
+already had. -/
+example : let k : Kern := fun _ _ _ _ => .moved 0
+    KernSafe k 0 ∧ KernLive k 0 ∧ (copyFileOffset k 1 0 5 1 0).stop = .ok 0 ∧
+    ¬ JobsIn (copyFileOffset k 1 0 5 1 0).evs 0 := by
+  refine ⟨?_, ?_, by decide, ?_⟩
+  · intro a s off req n h; simp at h; subst h; simp
+  · intro a s off req _ _ h; omega
+  · intro h; have := h (5, 0) (by decide); simp at this
+
+/-- `copy_file_offset` with the retry loop: on success the moved bytes are exactly the block clipped at EOF
+(statement changed: hypothesis `off + c ≤ len` added, see the counter-example above) -/
 theorem copyFileOffset_ok (k : Kern) (len : Nat) (hs : KernSafe k len) (hl : KernLive k len) :
-    ∀ (fuel a off bytes c n : Nat), c ≤ bytes →
+    ∀ (fuel a off bytes c n : Nat), c ≤ bytes → off + c ≤ len →
       (copyFileOffset k fuel a off bytes c).stop = .ok n →
       c ≤ n ∧ n ≤ bytes ∧ JobsIn (copyFileOffset k fuel a off bytes c).evs len ∧
       ∀ i, covered (jobsOf (copyFileOffset k fuel a off bytes c).evs) i ↔
             off + c ≤ i ∧ i < min (off + bytes) len := by
-  sorry
+  intro fuel a off bytes c n hc hlen h
+  obtain ⟨e1, e2, _, e4, e5⟩ := copyFileOffset_spec k len hs hl fuel a off bytes c hc hlen n h
+  exact ⟨e1, e2, e4, e5⟩
 
 /-- the returned count is what was copied: `off + n = min (off + bytes) len` when the block starts inside the file -/
 theorem copyFileOffset_count (k : Kern) (len : Nat) (hs : KernSafe k len) (hl : KernLive k len) :
     ∀ (fuel a off bytes c n : Nat), c ≤ bytes → off + c ≤ len →
       (copyFileOffset k fuel a off bytes c).stop = .ok n → off + n = min (off + bytes) len := by
-  sorry
+  intro fuel a off bytes c n hc hlen h
+  exact (copyFileOffset_spec k len hs hl fuel a off bytes c hc hlen n h).2.2.1
+
+theorem rangeUspace_no_spin (k : Kern) (len : Nat) (hs : KernSafe k len) :
+    ∀ (fuel a off nbytes w : Nat), w ≤ nbytes → nbytes - w < fuel →
+      (rangeUspace k fuel a off nbytes w).stop ≠ .spin := by
+  intro fuel
+  induction fuel with
+  | zero => intro a off nbytes w hw hf; omega
+  | succ f ih =>
+    intro a off nbytes w hw hf
+    unfold rangeUspace
+    simp only []
+    split
+    · split
+      · simp
+      · rename_i rlen h0 hra
+        obtain ⟨b1, b2⟩ := hs _ _ _ _ _ hra
+        have hr : rlen ≠ 0 := h0
+        split
+        · split
+          · simp
+          · exact ih (a+2) off nbytes (w + rlen) (by omega) (by omega)
+        · simp
+      · simp
+    · simp
+
+theorem bytesUspace_no_spin (k : Kern) (len : Nat) (hs : KernSafe k len)
+    (hne : ∀ a off req, k a .read off req ≠ .err .EINTR) :
+    ∀ (fuel a pos nbytes w : Nat), w ≤ nbytes → nbytes - w < fuel →
+      (bytesUspace k fuel a pos nbytes w).stop ≠ .spin := by
+  intro fuel
+  induction fuel with
+  | zero => intro a pos nbytes w hw hf; omega
+  | succ f ih =>
+    intro a pos nbytes w hw hf
+    unfold bytesUspace
+    simp only []
+    split
+    · split
+      · simp
+      · rename_i rlen h0 hra
+        obtain ⟨b1, b2⟩ := hs _ _ _ _ _ hra
+        have hr : rlen ≠ 0 := h0
+        split
+        · exact ih (a+2) pos nbytes (w + rlen) (by omega) (by omega)
+        · simp
+      · rename_i hra
+        exact absurd hra (hne _ _ _)
+      · simp
+    · simp
 
 /-- with enough fuel the retry loop never spins -/
 theorem copyFileOffset_no_spin (k : Kern) (len : Nat) (hs : KernSafe k len) (hl : KernLive k len) :
     ∀ (fuel a off bytes c : Nat), c ≤ bytes → bytes - c < fuel →
       (copyFileOffset k fuel a off bytes c).stop ≠ .spin := by
-  sorry
+  intro fuel
+  induction fuel with
+  | zero => intro a off bytes c hc hf; omega
+  | succ f ih =>
+    intro a off bytes c hc hf
+    have _ := hl
+    unfold copyFileOffset
+    simp only []
+    split
+    · split
+      · simp
+      · rename_i n h0 hcl
+        have hca := classifyCfr_done hcl
+        obtain ⟨b1, b2⟩ := hs _ _ _ _ _ hca
+        have hn0 : n ≠ 0 := h0
+        exact ih (a+1) off bytes (c + n) (by omega) (by omega)
+      · simp
+      · have hr := rangeUspace_no_spin k len hs (bytes - c + 1) (a+1) (off + c) (bytes - c) 0 (by omega) (by omega)
+        split
+        · simp
+        · exact hr
+    · simp
+
+/-! ## `copy_bytes` -/
+
+theorem copiedOf_bytesUspace (k : Kern) :
+    ∀ (fuel a pos nbytes w : Nat), copiedOf (bytesUspace k fuel a pos nbytes w).evs = [] := by
+  intro fuel
+  induction fuel with
+  | zero => intro a pos nbytes w; simp [bytesUspace, copiedOf]
+  | succ f ih =>
+    intro a pos nbytes w
+    unfold bytesUspace
+    simp only []
+    split
+    · split
+      · simp [copiedOf]
+      · split
+        · simp [copiedOf, ih]
+        · simp [copiedOf]
+      · simp [copiedOf, ih]
+      · simp [copiedOf]
+    · simp [copiedOf]
+
+/-- the one `copy_file_bytes` call of an iteration of `copy_bytes`, on either backend -/
+def cbStep (k : Kern) (linux : Bool) (a p req : Nat) : Run :=
+  if linux then copyFileBytes k a p req else copyFileBytesFallback k a p req
+
+theorem copyBytes_succ (k : Kern) (linux : Bool) (b f a pos n w : Nat) :
+    copyBytes k linux b (f+1) a pos n w =
+      if w < n then
+        match (cbStep k linux a (pos + w) (min (n - w) b)).stop with
+        | .ok m => (copyBytes k linux b f (cbStep k linux a (pos + w) (min (n - w) b)).next pos n (w + m)).pre
+                    ((cbStep k linux a (pos + w) (min (n - w) b)).evs ++ [.copied m])
+        | _ => cbStep k linux a (pos + w) (min (n - w) b)
+      else ⟨[], .ok w, a⟩ := rfl
+
+/-- one successful `copy_file_bytes(req)` at cursor `p`: it moved `m ≤ req` bytes `[p, p+m)`; a zero-length
+`copy_file_range` leaves the empty job `(p, 0)`, which lies in the file iff `p ≤ len` -/
+def StepSpec (len p req : Nat) (R : Run) : Prop :=
+  ∀ m, R.stop = .ok m → m ≤ req ∧ (0 < m → p + m ≤ len) ∧ (p ≤ len → JobsIn R.evs len) ∧
+    (∀ i, covered (jobsOf R.evs) i ↔ p ≤ i ∧ i < p + m) ∧ copiedOf R.evs = []
+
+theorem copyFileBytesFallback_step (k : Kern) (len : Nat) (hs : KernSafe k len) (a p req : Nat) :
+    StepSpec len p req (copyFileBytesFallback k a p req) := by
+  intro m hm
+  unfold copyFileBytesFallback at hm ⊢
+  obtain ⟨e1, e2, e3⟩ := bytesUspace_spec k len hs _ _ _ _ 0 (Nat.zero_le _) m hm
+  subst e1
+  refine ⟨Nat.le_refl _, ?_, fun _ => e2, ?_, copiedOf_bytesUspace ..⟩
+  · intro h0
+    have := covered_lt_of_JobsIn e2 ((e3 (p + m - 1)).mpr (by omega))
+    omega
+  · intro i; rw [e3]; omega
+
+theorem copyFileBytes_step (k : Kern) (len : Nat) (hs : KernSafe k len) (a p req : Nat) :
+    StepSpec len p req (copyFileBytes k a p req) := by
+  unfold copyFileBytes
+  simp only []
+  split
+  · rename_i n hcl
+    have hca := classifyCfr_done hcl
+    obtain ⟨b1, b2⟩ := hs _ _ _ _ _ hca
+    simp at b2
+    intro m hm
+    simp at hm
+    subst hm
+    refine ⟨b1, by omega, ?_, ?_, by simp [copiedOf]⟩
+    · intro hp; simp [JobsIn, jobsOf, hca]; omega
+    · intro i; simp [jobsOf, hca]
+  · intro m hm; simp at hm
+  · rename_i hcl
+    obtain ⟨e, hca⟩ := classifyCfr_err (x := k a .cfr p req) (by simp [hcl])
+    intro m hm
+    obtain ⟨e1, e2, e3, e4, e5⟩ := copyFileBytesFallback_step k len hs (a+1) p req m hm
+    refine ⟨e1, e2, ?_, ?_, ?_⟩
+    · intro hp j hj
+      simp [jobsOf, hca] at hj
+      exact e3 hp j hj
+    · intro i
+      rw [← e4]
+      simp [jobsOf, hca, copyFileBytesFallback]
+    · simpa [copiedOf, hca, copyFileBytesFallback] using e5
+
+theorem cbStep_step (k : Kern) (len : Nat) (hs : KernSafe k len) (linux : Bool) (a p req : Nat) :
+    StepSpec len p req (cbStep k linux a p req) := by
+  cases linux
+  · exact copyFileBytesFallback_step k len hs a p req
+  · exact copyFileBytes_step k len hs a p req
+
+/-- success of `copy_bytes` (loop variable `w`) -/
+def CbSpec (len pos n w : Nat) (R : Run) : Prop :=
+  ∀ r, R.stop = .ok r → r = n ∧ (w < n → pos + w < len) ∧ JobsIn R.evs len ∧
+    (∀ i, covered (jobsOf R.evs) i ↔ pos + w ≤ i ∧ i < pos + n) ∧ (copiedOf R.evs).sum + w = n
+
+theorem CbSpec_done (len pos n w a : Nat) (h : ¬ w < n) (hw : w ≤ n) :
+    CbSpec len pos n w ⟨[], .ok w, a⟩ := by
+  intro r hr
+  simp at hr
+  subst hr
+  have : w = n := by omega
+  subst this
+  refine ⟨rfl, by omega, by simp [JobsIn, jobsOf], ?_, by simp [copiedOf]⟩
+  intro i; simp [jobsOf]
+
+theorem copyBytes_spec (k : Kern) (len : Nat) (hs : KernSafe k len) (linux : Bool) (b : Nat) :
+    ∀ (fuel a pos n w : Nat), w ≤ n → CbSpec len pos n w (copyBytes k linux b fuel a pos n w) := by
+  intro fuel
+  induction fuel with
+  | zero =>
+    intro a pos n w hw
+    simp only [copyBytes]
+    split
+    · intro r h; simp at h
+    · exact CbSpec_done _ _ _ _ _ ‹_› hw
+  | succ f ih =>
+    intro a pos n w hw
+    rw [copyBytes_succ]
+    split
+    · rename_i hlt
+      have hstep := cbStep_step k len hs linux a (pos + w) (min (n - w) b)
+      generalize cbStep k linux a (pos + w) (min (n - w) b) = R at hstep ⊢
+      split
+      · rename_i m hm
+        obtain ⟨s1, s2, s3, s4, s5⟩ := hstep m hm
+        have hih := ih R.next pos n (w + m) (by omega)
+        intro r hr
+        obtain ⟨e1, e2, e3, e4, e5⟩ := hih r hr
+        have hpl : pos + w < len := by
+          by_cases hm0 : m = 0
+          · subst hm0; exact e2 hlt
+          · have := s2 (by omega); omega
+        refine ⟨e1, fun _ => hpl, ?_, ?_, ?_⟩
+        · intro j hj
+          simp [jobsOf_append, jobsOf] at hj
+          rcases hj with hj | hj
+          · exact s3 (by omega) j hj
+          · exact e3 j hj
+        · intro i
+          simp [jobsOf_append, jobsOf, s4, e4]; omega
+        · simp [copiedOf_append, copiedOf, s5]; omega
+      · rename_i hnot
+        intro r hr
+        exact absurd hr (hnot r)
+    · exact CbSpec_done _ _ _ _ _ ‹_› hw
 
 /-- parfile's `copy_bytes`: returns only when everything asked for has been moved -/
 theorem copyBytes_ok (k : Kern) (len : Nat) (hs : KernSafe k len) (linux : Bool) (b : Nat) :
@@ -48,21 +521,149 @@ theorem copyBytes_ok (k : Kern) (len : Nat) (hs : KernSafe k len) (linux : Bool)
       (copyBytes k linux b fuel a pos n w).stop = .ok r →
       r = n ∧ JobsIn (copyBytes k linux b fuel a pos n w).evs len ∧
       (∀ i, covered (jobsOf (copyBytes k linux b fuel a pos n w).evs) i ↔ pos + w ≤ i ∧ i < pos + n) := by
-  sorry
+  intro fuel a pos n w r hw h
+  obtain ⟨e1, _, e3, e4, _⟩ := copyBytes_spec k len hs linux b fuel a pos n w hw r h
+  exact ⟨e1, e3, e4⟩
 
 /-- `Copied` updates of `copy_bytes` sum to what was moved -/
 theorem copyBytes_copied (k : Kern) (len : Nat) (hs : KernSafe k len) (linux : Bool) (b : Nat) :
     ∀ (fuel a pos n w r : Nat), w ≤ n →
       (copyBytes k linux b fuel a pos n w).stop = .ok r →
       (copiedOf (copyBytes k linux b fuel a pos n w).evs).sum + w = n := by
-  sorry
+  intro fuel a pos n w r hw h
+  exact (copyBytes_spec k len hs linux b fuel a pos n w hw r h).2.2.2.2
+
+/-- one `copy_file_bytes` call on a non-empty request strictly inside the file: no spin, and progress -/
+theorem cbStep_live (k : Kern) (len : Nat) (hs : KernSafe k len) (hl : KernLive k len) (linux : Bool)
+    (hne : ∀ a off req, k a .read off req ≠ .err .EINTR) (a p req : Nat) (hreq : 0 < req) (hp : p < len) :
+    (cbStep k linux a p req).stop ≠ .spin ∧ ∀ m, (cbStep k linux a p req).stop = .ok m → 0 < m := by
+  have hfb : ∀ a, (copyFileBytesFallback k a p req).stop ≠ .spin ∧
+      ∀ m, (copyFileBytesFallback k a p req).stop = .ok m → 0 < m := by
+    intro a
+    unfold copyFileBytesFallback
+    refine ⟨bytesUspace_no_spin k len hs hne _ _ _ _ 0 (by omega) (by omega), ?_⟩
+    intro m hm
+    have := (bytesUspace_spec k len hs _ _ _ _ 0 (Nat.zero_le _) m hm).1
+    omega
+  cases linux
+  · exact hfb a
+  · simp only [cbStep, if_true]
+    unfold copyFileBytes
+    simp only []
+    split
+    · rename_i n hcl
+      have hca := classifyCfr_done hcl
+      have hlive := hl a .cfr p req (by simp) hreq hp
+      refine ⟨by simp, ?_⟩
+      intro m hm
+      simp at hm
+      subst hm
+      apply Nat.pos_of_ne_zero
+      intro h0
+      subst h0
+      exact hlive hca
+    · simp
+    · exact hfb (a+1)
 
 /-- with a positive block size, a live kernel and the range inside the file, `copy_bytes` does not spin -/
 theorem copyBytes_no_spin (k : Kern) (len : Nat) (hs : KernSafe k len) (hl : KernLive k len) (linux : Bool)
     (b : Nat) (hb : 0 < b) (hne : ∀ a off req, k a .read off req ≠ .err .EINTR) :
     ∀ (fuel a pos n w : Nat), w ≤ n → pos + n ≤ len → n - w < fuel →
       (copyBytes k linux b fuel a pos n w).stop ≠ .spin := by
-  sorry
+  intro fuel
+  induction fuel with
+  | zero => intro a pos n w hw hp hf; omega
+  | succ f ih =>
+    intro a pos n w hw hp hf
+    rw [copyBytes_succ]
+    split
+    · rename_i hlt
+      have hstep := cbStep_step k len hs linux a (pos + w) (min (n - w) b)
+      obtain ⟨l1, l2⟩ := cbStep_live k len hs hl linux hne a (pos + w) (min (n - w) b) (by omega) (by omega)
+      generalize cbStep k linux a (pos + w) (min (n - w) b) = R at hstep l1 l2 ⊢
+      split
+      · rename_i m hm
+        have := (hstep m hm).1
+        have := l2 m hm
+        exact ih R.next pos n (w + m) (by omega) hp (by omega)
+      · exact l1
+    · simp
+
+/-! ## `copy_sparse` -/
+
+/-- a legal seek oracle yields a segment `pos ≤ data ≤ hole ≤ len` with only zeros skipped -/
+theorem nextSparseSegments_legal (s : SeekOracle) (src : Bytes) (hl : SeekLegal s src) (pos : Nat)
+    (hp : pos < src.length) :
+    pos ≤ (nextSparseSegments s src.length pos).1 ∧
+    (nextSparseSegments s src.length pos).1 ≤ (nextSparseSegments s src.length pos).2 ∧
+    (nextSparseSegments s src.length pos).2 ≤ src.length ∧
+    ∀ i, pos ≤ i → i < (nextSparseSegments s src.length pos).1 → ZeroAt src i := by
+  unfold nextSparseSegments
+  simp only []
+  cases hd : s.data pos with
+  | none =>
+    simp only [hl.hole_eof src.length (Nat.le_refl _)]
+    exact ⟨by omega, Nat.le_refl _, Nat.le_refl _, fun i h1 _ => hl.data_none pos hp hd i h1⟩
+  | some d =>
+    obtain ⟨d1, d2, d3⟩ := hl.data_some pos d hp hd
+    simp only []
+    cases hh : s.hole d with
+    | none => exact ⟨d1, by simp; omega, by simp, d3⟩
+    | some h =>
+      obtain ⟨h1, h2⟩ := hl.hole_some pos d h hp hd hh
+      exact ⟨d1, by simp; omega, by simpa using h2, d3⟩
+
+/-- from `pos` on, all jobs are in bounds and whatever they leave uncovered is zero in the source -/
+theorem copySparse_spec (k : Kern) (s : SeekOracle) (src : Bytes) (hs : KernSafe k src.length)
+    (hl : SeekLegal s src) (b : Nat) :
+    ∀ (fuel a pos n : Nat), (copySparse k s b src.length fuel a pos).stop = .ok n →
+      JobsIn (copySparse k s b src.length fuel a pos).evs src.length ∧
+      ∀ i, pos ≤ i → i < src.length →
+        ¬ covered (jobsOf (copySparse k s b src.length fuel a pos).evs) i → src[i]? = some 0 := by
+  intro fuel
+  induction fuel with
+  | zero =>
+    intro a pos n
+    simp only [copySparse]
+    split
+    · intro h; simp at h
+    · intro _
+      exact ⟨by simp [JobsIn, jobsOf], fun i h1 h2 => by omega⟩
+  | succ f ih =>
+    intro a pos n
+    unfold copySparse
+    simp only []
+    split
+    · rename_i hp
+      obtain ⟨g1, g2, g3, g4⟩ := nextSparseSegments_legal s src hl pos hp
+      generalize nextSparseSegments s src.length pos = seg at g1 g2 g3 g4 ⊢
+      have hcb := copyBytes_spec k src.length hs true b (seg.2 - seg.1 + 1) a seg.1 (seg.2 - seg.1) 0
+        (Nat.zero_le _)
+      generalize copyBytes k true b (seg.2 - seg.1 + 1) a seg.1 (seg.2 - seg.1) 0 = R at hcb ⊢
+      split
+      · rename_i m hm
+        obtain ⟨c1, _, c3, c4, _⟩ := hcb m hm
+        intro hn
+        obtain ⟨i1, i2⟩ := ih R.next seg.2 n hn
+        refine ⟨?_, ?_⟩
+        · intro j hj
+          simp [jobsOf_append] at hj
+          rcases hj with hj | hj
+          · exact c3 j hj
+          · exact i1 j hj
+        · intro i h1 h2 hnc
+          simp [jobsOf_append, c4] at hnc
+          obtain ⟨n1, n2⟩ := hnc
+          by_cases hi : i < seg.1
+          · rcases g4 i h1 hi with h | h
+            · exact h
+            · omega
+          · exact i2 i (by omega) h2 n2
+      · rename_i hnot
+        intro hn
+        exact absurd hn (hnot n)
+    · intro _
+      exact ⟨by simp [JobsIn, jobsOf], fun i h1 h2 => by omega⟩
 
 /-- `copy_sparse`: on success the destination (zeros of the source's length, as left by create+ftruncate)
 becomes the source, whatever the layout, for every legal kernel and legal seek oracle -/
@@ -70,6 +671,7 @@ theorem copySparse_exact (k : Kern) (s : SeekOracle) (src : Bytes) (hs : KernSaf
     (hl : SeekLegal s src) (b : Nat) (fuel a : Nat) (n : Nat)
     (h : (copySparse k s b src.length fuel a 0).stop = .ok n) :
     runJobs src (List.replicate src.length 0) (jobsOf (copySparse k s b src.length fuel a 0).evs) = src := by
-  sorry
+  obtain ⟨h1, h2⟩ := copySparse_spec k s src hs hl b fuel a 0 n h
+  exact runJobs_exact src _ h1 (fun i hi hc => h2 i (Nat.zero_le _) hi hc)
 
 end Xcp
